@@ -84,6 +84,22 @@ func runC04(c *Ctx) {
 		b, ok := v.Type().Underlying().(*types.Basic)
 		return ok && b.Info()&types.IsInteger != 0
 	}
+	// the TOC offset handed in through metadata.Options comes from a manifest annotation: untrusted as well
+	isOptOffset := func(v ssa.Value) bool { // not armed: the bounds prover cannot relate size-offset to the comparisons of offset (see DESIGN 8.5, C04-10)
+		if fl, ok := v.(*ssa.Field); ok {
+			if st, ok := fl.X.Type().Underlying().(*types.Struct); ok && typeQName(fl.X.Type()) == "metadata.Options" {
+				return st.Field(fl.Field).Name() == "TOCOffset"
+			}
+			return false
+		}
+		p, ok := loadOf(v)
+		if !ok {
+			return false
+		}
+		fa, ok := p.(*ssa.FieldAddr)
+		return ok && typeQName(fa.X.Type()) == "metadata.Options" && fieldName(fa) == "TOCOffset"
+	}
+	_ = isOptOffset
 	// construction-phase functions for TOC taint
 	g := c.staticCG()
 	var ctor []*ssa.Function
@@ -521,6 +537,8 @@ func runC04(c *Ctx) {
 			}
 		}
 	}
+
+	clauseDigestParsedBeforeUse(c, "C04.k")
 
 	// ---- C04.d ----
 	discardAllow := map[string]string{
